@@ -213,6 +213,10 @@ func CheckC13(tier string) {
 			rep.Eval("")
 			rep.Count("refused_by_migrate:"+migrateRefusalClass(p.MigErr), 1)
 			continue
+		case len(missingInjectors(p)) > 0:
+			rep.Eval(p.S.Name + "/migrate")
+			rep.Violate(base.Violation{Sig: "C13/injector-missing-from-migrated-file", What: fmt.Sprintf("%s: wire generates %v, but the migrated file has no kessoku.Inject declaration for them", p.S.Name, missingInjectors(p)), Files: p.files()})
+			continue
 		case p.GenExit != 0 || p.Band == "":
 			rep.Eval(p.S.Name + "/generate")
 			cls := refusalClass(lastLine(p.GenErr))
@@ -298,6 +302,19 @@ func CheckC13(tier string) {
 		rep.Violate(base.Violation{Sig: "C13/crash/" + c.Kind, What: "scenario " + c.Scenario + " crashed: " + firstLine(c.Text)})
 	}
 	rep.Finish()
+}
+
+// missingInjectors lists the injectors of the configuration for which the
+// migrated file declares nothing (the injector name is the first argument of
+// kessoku.Inject).
+func missingInjectors(p *wirePair) []string {
+	var out []string
+	for _, in := range p.S.Injectors {
+		if !strings.Contains(p.Migrated, fmt.Sprintf("%q", in.Name)) {
+			out = append(out, in.Name)
+		}
+	}
+	return out
 }
 
 func migrateRefusalClass(stderr string) string {
